@@ -363,6 +363,22 @@ def r2_loaders(ctx) -> None:
                "of the moment of writing, so a kept old source_path makes later scheme/result files point at another file",
                construct=lib.short(stamps[0][1], 100) if stamps else "def " + name)
     ctx.sites("C17-R2", "source_path stamps in load dispatchers", n, 5)
+    # what goes into result.yml must be representable: python numbers, not numpy scalars
+    MATP = "glotaran/optimization/matrix_provider.py"
+    for nm in ("MatrixProviderUnlinked.number_of_clps", "MatrixProviderLinked.number_of_clps"):
+        f_ = ctx.fn(MATP, nm)
+        npcalls = [c for c in lib.calls(f_, nested=True) if norm(c.func).startswith(("np.", "numpy."))
+                   and not any(isinstance(a, ast.Call) and norm(a.func) == "int" for a in lib.ancestors(c, f_.node))]
+        ctx.ob("C17-R2", f"{nm}/python-int", not npcalls, f_, npcalls[0] if npcalls else f_.node,
+               "number_of_clps (and with it degrees_of_freedom, reduced_chi_square) is written to result.yml: a numpy reduction yields "
+               "np.int64, which the yaml writer cannot represent - save_result fails half way", construct=lib.short(npcalls[0], 90) if npcalls else "builtin sum/len")
+    crf = ctx.fn("glotaran/optimization/optimizer.py", "Optimizer.create_result")
+    txt_ = norm(crf.node)
+    need = {"optimality": "float(self._optimization_result.optimality)", "chi_square": "float(np.sum(self._optimization_result.fun ** 2))",
+            "root_mean_square_error": "float(np.sqrt("}
+    for k_, frag in need.items():
+        ctx.ob("C17-R2", f"create_result/{k_}-python-float", frag in txt_, crf, crf.node,
+               f"`{k_}` comes from numpy and is converted with float() before it is stored in the result", construct=frag)
     sr = ctx.fn(FLD, "FolderProjectIo.save_result")
     pcalls = [c for c in lib.calls(sr) if norm(c.func) == "save_parameters"]
     ctx.sites("C17-R2", "parameter files written by the folder plugin", len(pcalls), 2)
